@@ -13,7 +13,8 @@ use rufsm::scxml_reader;
 use serde_json::json;
 use std::time::Duration;
 
-const TOKENS: &[&str] = &["a", "ab", "b", "A", "é", "éa", "", "err", "error", "x", "日本", "日", "a*", "e1"];
+// (names the platform itself uses are ordinary names for the matching: `trace.<mode>.on`, `done.invoke.<id>`)
+const TOKENS: &[&str] = &["a", "ab", "b", "A", "é", "éa", "", "err", "error", "x", "日本", "日", "a*", "e1", "trace", "done", "invoke", "on", "methods"];
 const SUFFIX: &[&str] = &["", "", "", ".", ".*", ".*.", "..*", "..", ".*.*"];
 
 fn gen_name(p: &mut Prng) -> String {
@@ -149,6 +150,9 @@ pub fn corpus() -> Vec<Case> {
         mk(&["*"], &["anything", "a.b.c", ""]),
         mk(&[".*"], &[".x", "x", "", "."]),
         mk(&["a..b"], &["a..b", "a.b", "a..b.c", "a..bc"]),
+        // names that look like platform events are matched like any other name
+        mk(&["trace", "done.invoke"], &["trace.methods.on", "trace.x", "trace", "tracer.x", "done.invoke.c1", "done.invoke", "done.invoker"]),
+        mk(&["*"], &["trace.all.on", "trace.route.changed", "done.invoke.x", "done.state.s", "error.execution"]),
     ]
 }
 
